@@ -5,7 +5,9 @@
    differ.  That needs: IRI.Equals with the scheme compared is finer than without ([strict_loose]).
    Generic in the IRI comparison (module EqUrlGP, like EqGP of Proofs/EqualP.v); [strict_loose] is PROVED for the
    comparison over the plain URL grammar (iri_eqb_strict_loose) and the lemmas are instantiated with it below; for
-   the wide comparison iri_equ it is not proved (Proofs/EqualUP.v keeps it as a hypothesis, C09_block_url_links_u_partial). *)
+   the wide comparison iri_equ it is proved in Proofs/StrictLooseUP.v (iri_equ_strict_loose, builder b56) and the
+   hypothesis-free instances are in Proofs/EqualUrlUP.v (C09_block_url_links_u); the two _partial lemmas at the end of
+   this file are kept for reference. *)
 From AP.Model Require Import Prelude Bytes Vocab Pred Url IriEq Nlv Equal.
 From AP.Gen Require Import TypeLists.
 From AP.Proofs Require Import NlvP IriEqP LowerP EqualP.
@@ -174,9 +176,8 @@ Lemma cmp_url_links_rejects fs gs :
 Proof. exact (EqUrlGP.cmp_url_links_rejects iri_eqb iri_eqb_refl iri_eqb_sym iri_eqb_strict_loose fs gs). Qed.
 
 (* ---- the wide comparison iri_equ (Model/IriEqU.v): the same corollaries, with "strict implies loose" as a hypothesis.
-   NOT proved for iri_equ: its letter folding works on runes (the Kelvin sign, three bytes, folds with "k", one byte),
-   so that strip_scheme commutes with it needs an argument on rune boundaries that LowerP's byte-wise one does not
-   give; and its slow path goes through url_classify_u. ---- *)
+   The hypothesis is a theorem since builder b56 (Proofs/StrictLooseUP.v: the argument on rune boundaries that LowerP's
+   byte-wise one does not give); see Proofs/EqualUrlUP.v for ieq_u_links_differ / cmp_u_url_links_rejects without it. ---- *)
 From AP.Model Require Import Fold UrlU IriEqU EqualU.
 From AP.Proofs Require Import IriUP.
 
